@@ -93,7 +93,7 @@ func errClass(err error) string {
 	}
 	r := ovsdb.ResultFromError(err)
 	switch r.Error {
-	case "constraint violation", "referential integrity violation", "domain error", "not supported", "timed out":
+	case "constraint violation", "referential integrity violation", "domain error", "range error", "not supported", "timed out":
 		return r.Error
 	}
 	return "other"
